@@ -1075,6 +1075,21 @@ async def modes():
         kind, res = await run_keyed(PipelineChart(f'bounded_{tag}', build_dag(In, Out)), 7, Obs())
         if kind != 'done' or res.error is not None or res.value != 7 * 2 + 107:
             fail('C17', 'modes', f'middle node run as {mode}, pool registered', f'{kind}: {res!r}', 'value=121 error=None in every mode')
+    # modes that use no pool give the same result whatever the registries hold (nothing registered, or a pool shut down)
+    for mode, state in itertools.product(('coroutine', 'non_async'), ('never registered', 'shut down')):
+        reset(threads_pool_registry)
+        reset(process_pool_registry)
+        if state == 'shut down':
+            threads_pool_registry.register_pool_executor(ThreadPoolExecutor(max_workers=1))
+            threads_pool_registry.shutdown()
+        N_CASES[0] += 1
+        tag = f'm{next(counter)}'
+        invoked = []
+        In, Out = make(tag, mode, False, invoked)
+        kind, res = await run_keyed(PipelineChart(f'bounded_{tag}', build_dag(In, Out)), 7, Obs())
+        if kind != 'done' or res.error is not None or res.value != 7 * 2 + 107:
+            fail('C17', 'modes', f'middle node run as {mode} (uses no pool), thread pool {state}', f'{kind}: {res!r}',
+                 'value=121 error=None: no mode in use needs a pool')
     for mode, state in itertools.product(('thread', 'process'), ('never registered', 'shut down')):
         if mode == 'process' and state == 'shut down':
             continue            # would need a real process pool
